@@ -1273,6 +1273,7 @@ pub fn run(ctx: &mut Ctx, prop: &str) -> Report {
 			s.prefix_sweep();
 			s.kid_sweep();
 			s.api_surface();
+			s.ctor_sweep();
 			s.random_certs(n(600, 40000));
 		},
 		"C04" => {
@@ -1320,6 +1321,7 @@ pub fn run(ctx: &mut Ctx, prop: &str) -> Report {
 		"C09" => {
 			s.time_sweep();
 			s.time_edge_sweep();
+			s.ctor_ymd();
 			s.random_certs(n(150, 5000));
 			s.random_crls(n(300, 10000));
 		},
@@ -1328,6 +1330,7 @@ pub fn run(ctx: &mut Ctx, prop: &str) -> Report {
 			s.tie_csr = true;
 			s.tie_crl = true;
 			s.malformed_stream(n(400, 20000));
+			s.ctor_sweep();
 			s.parse_stream(n(300, 20000));
 			s.random_certs(n(200, 8000));
 			s.random_csrs(n(100, 4000));
